@@ -29,6 +29,7 @@ Run(o, k, ip, seen, acc) ==
 
 Conforms(o) ==
   /\ ~o.out.panic /\ o.out.finished                 \* the host neither panics nor stops consuming
+  /\ o.out.start_ok                                 \* ... also before the handshake line has arrived (stderr written first)
   /\ o.out.stdout_drained                           \* the plugin's stdout writer was never blocked
   /\ o.out.extra_records = 0
   /\ Run(o, 1, FALSE, FALSE, TRUE)
